@@ -250,6 +250,22 @@ def _numeric_failures(n, seed, limit=3):
         qv = tof.Q_vec_from_Q_elements(**q)
         want = 2 * np.pi / lam * (b1 / np.linalg.norm(b1) - b2 / np.linalg.norm(b2))
         e1 = np.linalg.norm(qv.value - want) / max(np.linalg.norm(want), 1e-300)
+        # "its norm equals the scalar Q for the same beams": the scalar Q of the package (from the wavelength and the scattering
+        # angle of the same beams), for wavelengths stored as double, single or integer
+        from vf.realrun import real_module as _rm
+        bl_ = _rm('conversion.beamline')
+        wdt = ('float64', 'float32', 'int64')[i % 3]
+        lam_t = float(np.float32(lam)) if wdt == 'float32' else (float(int(lam) + 1) if wdt == 'int64' else lam)
+        wl_t = sc.scalar(lam_t, unit='angstrom').to(dtype=wdt)
+        tt = bl_.two_theta(incident_beam=sc.vector(b1, unit='m'), scattered_beam=sc.vector(b2, unit='m'))
+        q_scalar = tof.Q_from_wavelength(wavelength=wl_t, two_theta=tt)
+        qn = np.linalg.norm(tof.Q_vec_from_Q_elements(**tof.Q_elements_from_wavelength(wavelength=wl_t, incident_beam=sc.vector(b1, unit='m'),
+                                                                                       scattered_beam=sc.vector(b2, unit='m'))).value)
+        if abs(q_scalar.to(unit='1/angstrom').value - qn) > (1e-5 if wdt == 'float32' else 1e-11) * qn + 1e-300:
+            e1 = float('inf')
+            if len(fails) < limit:
+                fails.append({'id': f'case{i}', 'seed': seed, 'index': i, 'problem': f'|Q_vec| = {qn!r} but the scalar Q for the same beams and wavelength ({wdt}) is {q_scalar.value!r}'})
+            continue
         # hkl: random rotation, U rotation, B with condition number up to 1e6
         Rm = Rotation.random(random_state=int(rng.integers(1 << 30))).as_matrix()
         U = Rotation.random(random_state=int(rng.integers(1 << 30))).as_matrix()
